@@ -21,7 +21,7 @@ from props import sitegen
 
 LEVEL = "proof"
 FILES = ["Base/Sites.v", "C03/SiteClass.v", "Gen/EnvSites.v", "Engine/Engine.v", "Engine/Script.v", "Engine/Shift.v", "Engine/ShiftRun.v", "C03/Props.v"]
-ENVS = [("0", 0), ("1", 0), ("4242", 3)]
+ENVS = [("0", 0), ("1", 0), ("4242", 3), ("0", -1)]     # (PYTHONHASHSEED, prior activity: n unrelated simulations / -1: the same model once before)
 
 TRUSTED = [
     "Coq 8.16.1 kernel, vm_compute (finite classification), no axioms",
@@ -130,7 +130,7 @@ def run(ctx):
                     cases.append((nm, ctx.seed, int(v or 0)))
     else:
         cases = [(n, ctx.seed, v) for n in names for v in range(5)]
-    envs = [ENVS[0], ENVS[2]] if ctx.quick else ENVS
+    envs = [ENVS[0], ENVS[2], ENVS[3]] if ctx.quick else ENVS
     jobs = [(n, s, v, hs, prior) for (n, s, v) in cases for (hs, prior) in envs]
     with ThreadPoolExecutor(max_workers=14) as ex:
         results = list(ex.map(run_case, jobs))
@@ -164,7 +164,7 @@ def run(ctx):
         ctx.violation("oracle", dict(family="scenario", case=dict(name=key[0], seed=key[1], variant=key[2]), failure=what))
     ctx.coverage.update(
         evaluations=len(results), distinct_nontrivial=nontrivial, traces_validated_against_impl=validated,
-        rule="every scenario x variant run in fresh interpreters (quick: PYTHONHASHSEED 0 and 4242-after-3-unrelated-simulations; thorough adds PYTHONHASHSEED 1); digests of (time, type, target) deliveries and of component statistics must agree; non-trivial = >= 20 events",
+        rule="every scenario x variant run in fresh interpreters (quick: PYTHONHASHSEED 0, 4242-after-3-unrelated-simulations, and 0-after-the-same-model-built-and-run-once-before; thorough adds PYTHONHASHSEED 1); digests of (time, type, target) deliveries and of component statistics must agree; non-trivial = >= 20 events",
         samples=[dict(case=list(k), digests=[r["digest"][:12] if r["digest"] else None for r in v]) for k, v in list(sorted(by_case.items()))[:3]],
         scenarios=len(names), environments=envs, differing_cases=differing, cases_not_decided_wall_budget=inconclusive, source_files_scanned=nfiles,
         env_sites=len(sites["env_sites"]), env_site_kinds={k: sum(1 for s in sites["env_sites"] if s[2] == k) for k in sorted({s[2] for s in sites["env_sites"]})},
